@@ -1020,6 +1020,13 @@ impl World {
             let mut d = mk_header(if second { self.target_udp2 } else if let Some(v) = v6 { v.target_udp } else { self.target_udp });
             d.extend(&p);
             let _ = sock.send_to(&d, dest).await;
+            if entry == 1 && seq == 0 {
+                // a fragmented datagram (FRAG != 0): RFC 1928 has the relay drop it; the association must go on working
+                let mut f = mk_header(self.target_udp);
+                f[2] = 1;
+                f.extend(b"fragment");
+                let _ = sock.send_to(&f, dest).await;
+            }
             // what must come back: the target's mark in front of the payload
             let mut want = vec![if second { b'S' } else if v6.is_some() { b'T' } else { b'R' }];
             want.extend(&p);
